@@ -19,6 +19,8 @@ func init() {
 			"'also beyond 65534 entries' (writer, reader and size estimator of the 0xFFFF count convention tabulated and agreeing); plus: Free rejects ids <= 1 and already-free ids before mutating. " +
 			"NOT decided: the input/output specification of Allocate/Free/Release over operation sequences (sets of integers, span arithmetic), rollback restoring exactly the prior state, serialise/re-read preserving the sets — all value-level.",
 		Run: func(c *Ctx) {
+			rulePendingSlicesAligned(c, "C09.R10") // "pending pages become free only when no registered reader's version can contain them": alloctx[i] must stay the allocating txid of ids[i]
+			ruleSpanCoversRequest(c, "C09.R11") // "returns the first id of n consecutive pages that were all free"
 			ruleFreeSetEntry(c, "C09.R1")
 			c09R2(c, "C09.R2")
 			ruleFreelistCountConvention(c, "C09.R3")
@@ -167,46 +169,76 @@ func c09R2(c *Ctx, id string) {
 			bad := ""
 			n := 0
 			for _, fn := range tree {
-				for _, r := range returnsOf(fn) {
-					if len(r.Results) == 0 {
-						continue
-					}
-					res := r.Results[0]
+				// handOut decides one (value, position) pair: is allocs[value] = txid recorded and the cache cleared before it?
+				var handOut func(res ssa.Value, at ssa.Instruction, depth int) (counted int, why string)
+				handOut = func(res ssa.Value, at ssa.Instruction, depth int) (int, string) {
 					if v, isC := constInt(res); isC && v == 0 {
-						continue
+						return 0, ""
 					}
-					// delegation: the id comes straight from another function of the tree
 					src := res
 					if ex, ok := src.(*ssa.Extract); ok {
 						src = ex.Tuple
 					}
 					if call, ok := src.(*ssa.Call); ok && inTree[calleeOf(call).Static] {
-						continue
+						return 0, "" // delegation: the id comes straight from another function of the tree
 					}
-					n++
 					okAlloc, okCache := false, false
 					eachInstr(fn, func(in ssa.Instruction) {
 						if x, ok := in.(*ssa.MapUpdate); ok {
 							if strings.HasSuffix(pathOf(x.Map).Names(), "allocs") {
-								if p, isP := x.Value.(*ssa.Parameter); isP && strings.HasSuffix(p.Type().String(), "common.Txid") && dominates(x, r) && x.Key == res {
+								if p, isP := resolveCell(x.Value).(*ssa.Parameter); isP && strings.HasSuffix(p.Type().String(), "common.Txid") && dominates(x, at) && x.Key == res {
 									okAlloc = true
 								}
 							}
 						}
-						if clearsCache(in) && reach([]ssa.Instruction{in}, nil, nil, nil)[r] {
-							// in the same found-region: the return's block is dominated by the block (or loop) that clears
+						if clearsCache(in) && reach([]ssa.Instruction{in}, nil, nil, nil)[at] {
 							for b := in.Block(); b != nil; b = b.Idom() {
-								if b.Dominates(r.Block()) && b != fn.Blocks[0] {
+								if b.Dominates(at.Block()) && b != fn.Blocks[0] {
 									okCache = true
 								}
 							}
 						}
 					})
-					if !okAlloc {
-						bad = "a page run is handed out at " + c.P.Position(r.Pos()) + " without allocs[start] = txid"
+					if okAlloc && okCache {
+						return 1, ""
 					}
-					if !okCache {
-						bad = "a page run is handed out at " + c.P.Position(r.Pos()) + " without removing its ids from the cache"
+					// a result variable: decide every incoming value at the end of the block it comes from
+					if ph, isPhi := res.(*ssa.Phi); isPhi && depth < 3 {
+						loop := false
+						for _, p := range ph.Block().Preds {
+							if ph.Block().Dominates(p) {
+								loop = true
+							}
+						}
+						if !loop {
+							total := 0
+							for i, p := range ph.Block().Preds {
+								k, why := handOut(ph.Edges[i], p.Instrs[len(p.Instrs)-1], depth+1)
+								if why != "" {
+									return 0, why
+								}
+								total += k
+							}
+							return total, ""
+						}
+					}
+					pos := at.Pos()
+					if !pos.IsValid() {
+						pos = fn.Pos()
+					}
+					if !okAlloc {
+						return 1, "a page run is handed out at " + c.P.Position(pos) + " without allocs[start] = txid"
+					}
+					return 1, "a page run is handed out at " + c.P.Position(pos) + " without removing its ids from the cache"
+				}
+				for _, r := range returnsOf(fn) {
+					if len(r.Results) == 0 {
+						continue
+					}
+					k, why := handOut(r.Results[0], r, 0)
+					n += k
+					if why != "" {
+						bad = why
 					}
 				}
 			}
